@@ -117,6 +117,8 @@ def rand_partition(rng, m, kmax=4):
     """list of parts (lists of atoms), each connected"""
     atoms = list(m)
     k = rng.randint(1, min(kmax, len(atoms)))
+    if k == 1 and len(atoms) >= 2 and rng.random() < 0.8:
+        k = rng.randint(2, max(2, min(kmax, len(atoms))))      # uncut molecules are a small share only
     if rng.random() < 0.12:
         k = min(len(atoms), 9)          # many single-atom fragments (lone ring atoms, all bonds cut)
     seeds = rng.sample(atoms, k)
@@ -438,8 +440,31 @@ def cut_case(rng, nmax=9, kmax=4, kinds=None, p_kekule=0.2):
         if ka > kb:
             ka, kb, ea, eb = kb, ka, eb, ea
         cutinfo.setdefault('%d-%d' % (ka, kb), []).append([ea[0], ea[1], eb[0], eb[1]])
+    # the cut at graph level (theories/Compose/CutModel.v): the molecule AS WRITTEN (m, not m0), the parts in the
+    # order of the base-graph nodes with their atoms in text order, per bond label / kind / orientation (for a
+    # directional pair the first atom carries '>'), and the order in which an atom's descriptors are written
+    gbonds = []
+    cutset = {frozenset(c): c for c in cuts}
+    for a, b in m.edges:
+        o = m.edges[a, b]['order']
+        c = cutset.get(frozenset((a, b)))
+        if c is None:
+            gbonds.append([a, b, o, '', True])
+            continue
+        lab = label_of[c]
+        da = next(n for n, _ in desc[a] if n[1:] == lab)
+        if da[0] == '$':
+            gbonds.append([a, b, o, lab, True])
+        elif da[0] == '>':
+            gbonds.append([a, b, o, lab, False])
+        else:
+            gbonds.append([b, a, o, lab, False])
+    glevel = {'atoms': [[a, m.nodes[a]['element'], m.nodes[a]['charge'], bool(m.nodes[a]['aromatic'])] for a in m],
+              'bonds': gbonds,
+              'parts': [[names[p], list(orders[p])] for p in numbering],
+              'dord': [[a, [n + str(o) for n, o in desc[a]]] for a in desc]}
     return {'s': base + '.' + frs, 'single': single, 'mol': mol_dump(m0), 'ncuts': len(cuts), 'nparts': len(parts),
-            'kind': kind, 'cutinfo': cutinfo, 'kekule': kek}
+            'kind': kind, 'cutinfo': cutinfo, 'kekule': kek, 'glevel': glevel}
 
 
 def mol_dump(m):
